@@ -148,6 +148,8 @@ template <typename T> void cheap_check(const Slot<T>& s, const char* after) {
   VF_CHECK(mx == s.mx, "max-exact", "after " << after << ": max " << mx << " exact " << s.mx << " (n=" << s.n << ")");
 }
 
+const double RANK_TOL = 4 * std::numeric_limits<double>::epsilon();   // ranks are doubles in [0,1] for both value types
+
 template <typename T> T next_up(T v) { return std::nextafter(v, std::numeric_limits<T>::infinity()); }
 template <typename T> T next_down(T v) { return std::nextafter(v, -std::numeric_limits<T>::infinity()); }
 
@@ -224,7 +226,11 @@ template <typename T> void battery(Slot<T>& s, uint64_t seed, CaseStats& cst, De
     VF_CHECK(x >= 0.0 && x <= 1.0, "rank-range", "get_rank(" << v << ") = " << x << " outside [0,1] (n=" << s.n << ", k=" << s.k << ")");
     if (v < s.mn) VF_CHECK(x == 0.0, "rank-below-min", "get_rank(" << v << ") = " << x << " for a value below min " << s.mn);
     if (v > s.mx) VF_CHECK(x == 1.0, "rank-above-max", "get_rank(" << v << ") = " << x << " for a value above max " << s.mx);
-    if (i > 0) VF_CHECK(x >= rk[i - 1], "rank-monotone", std::setprecision(17) << "get_rank(" << grid[i - 1] << ") = " << rk[i - 1] << " > get_rank(" << v << ") = " << x
+    // Rounding allowance: get_rank evaluates (below + delta * (v - m1) / (m2 - m1)) / W left to right, and fl(fl(delta * a) / b) can
+    // exceed delta by one unit in the last place when a is one step below b, i.e. the rank just below a centroid mean can come out
+    // 6e-17 above the rank at the mean (seen in the first thorough run: adjacent doubles, k=11, n=27902). Not provably exact, so
+    // a stated tolerance applies (README rule 3): 4 machine epsilons of the rank scale 1.0.
+    if (i > 0) VF_CHECK(x >= rk[i - 1] - RANK_TOL, "rank-monotone", std::setprecision(17) << "get_rank(" << grid[i - 1] << ") = " << rk[i - 1] << " > get_rank(" << v << ") = " << x
                         << " (n=" << s.n << ", k=" << s.k << ")");
   }
   s.buf = 0;
@@ -309,7 +315,7 @@ template <typename T> void battery(Slot<T>& s, uint64_t seed, CaseStats& cst, De
     for (size_t i = 0; i <= m; ++i) {
       const double expect = i == 0 ? cdf[0] : cdf[i] - cdf[i - 1];
       VF_CHECK(pmf[i] == expect, "pmf-is-rank-difference", std::setprecision(17) << "PMF[" << i << "] = " << pmf[i] << " expected " << expect);
-      VF_CHECK(pmf[i] >= 0.0, "pmf-nonnegative", "PMF[" << i << "] = " << pmf[i]);
+      VF_CHECK(pmf[i] >= -RANK_TOL, "pmf-nonnegative", "PMF[" << i << "] = " << pmf[i]);
       sum += pmf[i];
     }
     VF_CHECK(std::fabs(sum - 1.0) <= 1e-12 * (m + 1), "pmf-sums-to-1", std::setprecision(17) << "PMF sums to " << sum);
